@@ -76,6 +76,7 @@ DEFAULT_CFG = dict(
     heap=False,        # harness owns yyalloc/yyrealloc/yyfree (allocation ledger, fault injection)
     tablesfile=False,  # --tables-file: tables are loaded with yytables_fload() at run time
     tablesverify=False,
+    instances=False,   # C12 harness: several reentrant instances in one process
     extra_opts="",     # further %option text
 )
 
@@ -109,8 +110,12 @@ def emit_l(src, cfg):
     for i, s in enumerate(src["scs"]):
         if i == 0: continue
         hdr.append(("%x " if s["excl"] else "%s ") + s["name"])
-    tmpl = open(os.path.join(HARNESS_DIR, "harness_%s.inc" % ("c99" if c["flavour"] == "c99" else "cpp"))).read()
-    top = open(os.path.join(HARNESS_DIR, "harness_top.inc")).read()
+    if c.get("instances"):
+        tmpl = open(os.path.join(HARNESS_DIR, "inst_main.inc")).read()
+        top = open(os.path.join(HARNESS_DIR, "inst_top.inc")).read()
+    else:
+        tmpl = open(os.path.join(HARNESS_DIR, "harness_%s.inc" % ("c99" if c["flavour"] == "c99" else "cpp"))).read()
+        top = open(os.path.join(HARNESS_DIR, "harness_top.inc")).read()
     out = []
     out += hdr
     out.append("%{")
